@@ -78,6 +78,14 @@ def pointerVarAfter : Str :=
 def f13File : Str :=
   cs!"export default 'query Home {\\\n  user____name___s_it_s: user(name: \"it's\") {\\\n    id,\\\n    name,\\\n  },\\\n}';"
 
+/-- the pretty text of the same operation (what `generate_query_text(.., Format::Pretty)` returns) -/
+def f13Pretty : Str :=
+  cs!"query Home {\\\n  user____name___s_it_s: user(name: \"it's\") {\\\n    id,\\\n    name,\\\n  },\\\n}"
+
+/-- F11 (`user(n: -5)`), pretty -/
+def f11NegPretty : Str :=
+  cs!"query Home {\\\n  user____n___l_-5: user(n: -5) {\\\n    id,\\\n    name,\\\n  },\\\n}"
+
 def plainFile : Str :=
   cs!"export default 'query Home {\\\n  me {\\\n    id,\\\n    name,\\\n  },\\\n}';"
 
@@ -93,6 +101,17 @@ theorem listVar_after_valid : check listVarAfter = some true := by decide +kerne
 theorem pointerVar_before_invalid : check pointerVarBefore = some false := by decide +kernel
 theorem pointerVar_after_valid : check pointerVarAfter = some true := by decide +kernel
 theorem f13_not_javascript : jsValue f13File = none := by decide +kernel
+/-- since the repair of F13 the file is `queryTextFile f13Pretty` (apostrophe escaped): JavaScript
+again, and the operation the runtime reads is valid -/
+theorem f13_repaired_javascript :
+    jsValue (queryTextFile f13Pretty) =
+      some cs!"query Home {  user____name___s_it_s: user(name: \"it's\") {    id,    name,  },}" := by decide +kernel
+theorem f13_repaired_valid :
+    check cs!"query Home {  user____name___s_it_s: user(name: \"it's\") {    id,    name,  },}" = some true := by
+  decide +kernel
+theorem f13_before_is_unescaped : f13File = exportDefault ++ f13Pretty ++ cs!"';" := by decide +kernel
+/-- F11: the file is JavaScript, its value does not parse -/
+theorem f11neg_javascript : jsValue (queryTextFile f11NegPretty) = some f11NegText := by decide +kernel
 theorem plain_javascript :
     jsValue plainFile = some cs!"query Home {  me {    id,    name,  },}" := by decide +kernel
 
